@@ -47,6 +47,7 @@ class Unit:
         self.viols = []          # dicts
         self.samples = []
         self.inconclusive = 0
+        self.inconcl = []          # scenarios that hit the step cap (kept for inspection)
         self.states = set()
         self.execs = collections.Counter()
         self.exhaustive = None
@@ -68,6 +69,8 @@ class Unit:
         self.execs[scn.get("exec", "asyncio")] += 1
         if res.error == "stepcap":
             self.inconclusive += 1
+            if len(self.inconcl) < 2:
+                self.inconcl.append((scn, res.digest))
         st = res.info.get("pool_states")
         if st:
             self.states |= st
@@ -90,6 +93,8 @@ class Unit:
         if len(self.samples) < 4:
             self.samples.extend(o.samples[: 4 - len(self.samples)])
         self.inconclusive += o.inconclusive
+        if len(self.inconcl) < 4:
+            self.inconcl.extend(o.inconcl[: 4 - len(self.inconcl)])
         self.states |= o.states
         self.execs.update(o.execs)
         if o.exhaustive is not None:
@@ -454,6 +459,12 @@ def run_check(prop, tier="quick", seed=0, jobs=None, budget_s=None):
         ev["coverage"]["exhaustive"] = bool(total.exhaustive) and skipped == 0
     for k, v in total.extra.items():
         ev["coverage"][k] = v
+    # runs that hit the step cap without spinning are neither passes nor violations:
+    # their scenarios are kept next to the replays for inspection
+    for name, u in sorted(per_fam.items()):
+        for scn, digest in u.inconcl:
+            pth = write_replay(prop, name, "inconclusive-stepcap", scn, digest, seed)
+            print(f"NOTE: inconclusive run (step cap) family={name} scenario={pth}")
     os.makedirs(EVIDENCE_DIR, exist_ok=True)
     with open(os.path.join(EVIDENCE_DIR, f"{prop}.json"), "w") as f:
         f.write(jdump(ev, indent=1, sort_keys=True))
